@@ -601,7 +601,8 @@ theorem weights_round_trip (w : Weights) (id l r j : Nat) :
 /-- obligations on the facts regenerated from the Go source on every run: the page sizes are usable
     (min ≥ 1, max ≥ min, six halvings stay above the minimum and the seventh does not), both key builders use
     the 20-digit zero-padded format, `RegionStorage.Remove` (repair of F7b) drops the pending batch entry
-    before it deletes from leveldb, under the storage mutex, and `FlushRegion` holds that mutex. -/
+    before it deletes from leveldb, under the storage mutex, `FlushRegion` holds that mutex, and `LoadRegionsOnce` sets
+    its flag after the call of `loadRegions` (as `loadRegionsOnce` in the model). -/
 theorem limits_sane :
     1 ≤ PdModel.Generated.StorageLoad.minKVRangeLimit ∧
     PdModel.Generated.StorageLoad.minKVRangeLimit ≤ PdModel.Generated.StorageLoad.maxKVRangeLimit ∧
@@ -611,6 +612,7 @@ theorem limits_sane :
     PdModel.Generated.StorageLoad.regionKeyZeroPadded20 = true ∧
     PdModel.Generated.StorageLoad.removeIsOneSection = true ∧
     PdModel.Generated.StorageLoad.removeDropsPendingFirst = true ∧
-    PdModel.Generated.StorageLoad.flushIsOneSection = true := by decide
+    PdModel.Generated.StorageLoad.flushIsOneSection = true ∧
+    PdModel.Generated.StorageLoad.onceFlagSetAfterLoad = true := by decide
 
 end PdModel.StorageLoad
